@@ -2426,6 +2426,9 @@ def container_protocol(ctx, n_hist):
                     op = "delete_fields()" if key is None else f"del obj[{key!r}]"
                     if key is None:
                         obj.delete_fields()
+                    elif rng.rand() < 0.4:
+                        op = f"delete_fields({key!r})"
+                        obj.delete_fields(key)            # the `select` argument: same key forms as `del obj[...]`
                     else:
                         del obj[key]
                     order = [nm for nm in order if nm not in gone]
